@@ -211,30 +211,77 @@ def concrete_line(case):
     ])
 
 
+def polar_point_class(gc, positions):
+    """Is every position handed to PolarExtentHandler.handle in the point-only regime (`ammount_spread <= 1e-10` for zero
+    width/height/depth)?  Decided with the real code's own extent_mod / fade_width, independently of the Lean model.
+    Returns (in_class, borderline)."""
+    pep = gc.polar_extent_panner.polar_extent_panner
+    worst, border = 0.0, False
+    for pos in positions:
+        e = float(gc.polar_extent_panner.extent_mod(0.0, float(np.linalg.norm(pos))))
+        a = float(np.interp(max(e, e), [0, pep.fade_width], [0, 1]))
+        worst = max(worst, a)
+        border = border or abs(a - 1e-10) < 1e-12
+    return worst <= 1e-10, border
+
+
 def work_concrete(job):
     """job = (layout, seed, n): blocks with zero extent rendered by the real code (nothing captured) and described to
-    the Lean `renderConcreteCart` / `renderConcretePolarPoint` by their metadata only."""
+    the Lean `renderConcreteCart` / `renderConcretePolarPoint` by their metadata only.  Expected answers:
+      * the real render returned gains           -> the model must return the same gains, EXCEPT a polar block one of whose
+                                                    diverged positions is outside the point-only class (decided here with
+                                                    the real extent_mod, see polar_point_class): the model must say `none`;
+      * the real render raised ValueError        -> the model must say `none` (positionOffset leaving the value range);
+      * the element validators reject the block  -> outside the model (not sent)."""
     layout, seed, n = job
     rng = random.Random("c01-concrete/%s/%r" % (layout, seed))
     res = {"layout": layout, "lines": [], "expect": [], "counts": {}}
     gc, _lay = G.gain_calc(layout)
+    peh = gc.polar_extent_panner
     tries = 0
     while len(res["lines"]) < n and tries < 20 * n:
         tries += 1
         case = G.gen_case(rng, layout, boundary=(tries % 3 == 0))
         case["width"] = case["height"] = case["depth"] = 0.0
         if not case["cartesian"]:
-            # the polar point class: distance >= 1 after the transforms (distance is preserved by them unless locked)
-            if case["lock"] is None or rng.random() < 0.7:
+            # the polar point class: distance >= 1 after the transforms (distance is preserved by them unless locked);
+            # one block in ten keeps its drawn distance (mostly < 1: outside the class, the model must answer `none`)
+            if rng.random() < 0.9 and (case["lock"] is None or rng.random() < 0.7):
                 case["position"][2] = 1.0
             if case["offset"] is not None:
                 case["offset"][2] = 0.0
-        r = G.run_real(case, gc)
-        if r[0] != "ok":
-            res["counts"]["concrete: rejected by design"] = res["counts"].get("concrete: rejected by design", 0) + 1
+        try:
+            meta = G.build_meta(case)
+        except (ValueError, TypeError):
+            res["counts"]["concrete: element validator rejects (not sent)"] = res["counts"].get(
+                "concrete: element validator rejects (not sent)", 0) + 1
+            continue
+        visited = []
+        orig_handle = peh.handle
+
+        def handle(position, *a, **kw):
+            visited.append(np.array(position, dtype=float))
+            return orig_handle(position, *a, **kw)
+
+        peh.handle = handle
+        try:
+            with warnings.catch_warnings():
+                warnings.simplefilter("ignore")
+                with np.errstate(all="ignore"):
+                    try:
+                        r = gc.render(meta)
+                        out = ("ok", np.asarray(r.direct, dtype=float).tolist(), np.asarray(r.diffuse, dtype=float).tolist())
+                    except ValueError as e:
+                        out = ("raised", "ValueError: " + str(e)[:200], None)
+        finally:
+            del peh.handle
+        in_class, border = (True, False) if case["cartesian"] else polar_point_class(gc, visited)
+        if border:
+            res["counts"]["concrete: ammount_spread within 1e-12 of the 1e-10 threshold (not sent)"] = res["counts"].get(
+                "concrete: ammount_spread within 1e-12 of the 1e-10 threshold (not sent)", 0) + 1
             continue
         res["lines"].append(concrete_line(case))
-        res["expect"].append((case, r[2].tolist(), r[3].tolist()))
+        res["expect"].append((case, out, in_class))
     return res
 
 
@@ -352,7 +399,8 @@ def work_seq(job):
     shared-instance result."""
     import copy
 
-    layout, seed, nseq = job
+    layout, seed, nseq = job[:3]
+    fixed = len(job) > 3 and job[3]
     rng = random.Random("c01-seq/%s/%r" % (layout, seed))
     res = {"layout": layout, "real": None, "lines": [], "expect": [], "cases": [], "hits": [], "counts": {}, "drift": []}
 
@@ -365,10 +413,17 @@ def work_seq(job):
         res["hits"].append(("GainCalc(layout) raised for an admissible layout", {"layout": layout},
                             {"exception": "%s: %s" % (type(e).__name__, str(e)[:300])}, ["c01-exception", "c01-construct"]))
         return res
-    for _ in range(nseq):
-        seq = G.gen_sequence(rng, layout)
+    if fixed:
+        # deterministic families (seed-independent): one sized block repeated with varying gain / object gain / mute
+        seqs = G.fixed_sequences(layout)[fixed[0]::fixed[1]]
+    else:
+        seqs = [(None, G.gen_sequence(rng, layout)) for _ in range(nseq)]
+    for label, seq in seqs:
         shared = copy.deepcopy(template)
         count("sequences:%s" % layout)
+        if label is not None:
+            count("fixed sequence family:" + label.split(": ", 1)[-1])
+            count("fixed sequence sized block:" + label.split(": ", 1)[0])
         count("sequence length:%d" % len(seq))
         count("sequence paths:" + "".join("C" if c["cartesian"] else "P" for c in seq))
         for i, case in enumerate(seq):
@@ -396,10 +451,14 @@ def work_seq(job):
             count("sequence block zones:%s" % ("recurring/non-empty" if case["zones"] else "empty"))
             res["cases"].append((repr(("seq", layout, i, sorted((k, repr(v)) for k, v in case.items()))), True, None))
             if not same:
-                res["hits"].append(("render depends on earlier blocks", {"sequence": seq[: i + 1], "index": i},
+                # the power law on the shared-instance result as well (the property itself, not only the comparison)
+                p = G.predicate(case, is_lfe, direct, diffuse)
+                res["hits"].append(("render depends on earlier blocks" + ("" if p is None else " and violates the property: " + p[0]),
+                                    {"sequence": seq[: i + 1], "index": i},
                                     {"shared_instance": {"direct": f17(direct), "diffuse": f17(diffuse)},
-                                     "fresh_instance": {"direct": f17(b[2]), "diffuse": f17(b[3])}},
-                                    ["c01-state-dependent"]))
+                                     "fresh_instance": {"direct": f17(b[2]), "diffuse": f17(b[3])},
+                                     "predicate on the shared-instance result": None if p is None else p[1]},
+                                    ["c01-state-dependent"] + ([] if p is None else p[2])))
                 break
             p = G.predicate(case, is_lfe, direct, diffuse)
             if p is not None:
@@ -558,6 +617,30 @@ class C01(Spec):
             "treeWF_of_TreeS", "allo_unit_power_distinct", "renderConcrete_cart_power", "tables_env_ok",
             "renderConcrete_cart_power_layouts", "quadRoot_range", "pspHandle_contract", "polarPointPan_contract",
             "renderConcrete_polar_point_partial", "tables_polar_ok", "renderConcrete_polar_point_partial_layouts",
+            # round 7: the panner's answer is never zero at a visited position (hnz discharged), contracts restricted to
+            # the visited positions, 0+2+0 bounds on the concrete stereo table, H3 on the headline render theorems,
+            # pipeline glue facts
+            "layouts_nonempty", "render_nonneg_real", "render_lfe_zero_real", "render_muted_zero_real",
+            "clampedExtent_range", "polarHandle_isPolarRow_ranged", "arg_sep", "polarPoint_far", "norm3_sq_gt",
+            "vecMat_pv", "triplet_gain_pos", "ngon_cand_hasPos", "tripOk_sound", "region_hasPos", "downmix_hasPos",
+            "panner_inner_spec", "downmixed_spec", "pspHandle_hasPos", "pspHandle_unit", "pspHandle_stereo_contract",
+            "pvSpread_point_only_bounds", "polarPointPan_stereo_contract", "renderConcrete_polar_point_stereo_bounds_partial",
+            "tables_stereo_ok", "renderConcrete_polar_point_stereo_bounds_partial_layouts", "renderConcrete_cart_stereo_bounds",
+            "applyOffset_none", "applyOffset_cart", "applyOffset_polar_range", "coordTrans_cart_in_cube", "norm3_cart",
+            "coordTrans_polar_norm", "cart_front", "polarExtents_length", "polarExtents_range", "polarCombine_single",
+            "polarCombine_pair", "lockToScreenEdge_none", "lockToScreenEdge_cases", "edgeLockHandle_noScreen",
+            "edgeLockHandle_noEdge", "screenScaleHandle_noRef", "screenScaleHandle_noScreen", "divergePositions_polar",
+            "divergePositions_none", "diverge_polar_keeps_centre", "lcs_rot_norm", "diverge_polar_norm",
+            # round 7: partial totality (the hypotheses `renderConcrete... = some r` are satisfiable on the tables)
+            "polarEdges_front", "renderConcreteCart_plain_total", "pspHandle_some_at_vertex",
+            "renderConcretePolarPoint_front_total", "tables_screen_ok", "renderConcreteCart_plain_total_layouts",
+            "renderConcretePolarPoint_front_total_layouts", "tables_front_ok", "renderConcretePolarPoint_at_total",
+            "ngon_some_at_centre", "pspHandle_some_at_centre", "renderConcretePolarPoint_up_total",
+            "renderConcretePolarPoint_up_total_stereo", "tables_up_ok",
+            # round 7: C05 totality (Earverif.PointSource.pspHandle_total_layouts) plugged in: no panner hypothesis left
+            "arg_mono", "extentMod_zero_far", "inPointClass_of_far", "InPointClass.ne_zero", "InPointClass.of_norm_eq",
+            "polarPointPan_total", "renderConcretePolarPoint_total", "renderConcrete_polar_point_layouts",
+            "renderConcrete_polar_point_stereo_bounds_layouts",
         )
     )
     trusted_base = (
@@ -567,18 +650,22 @@ class C01(Spec):
         "downmix_for_excluded, the depth RMS, the calc_pv_spread skeleton, the two normalisations and "
         "AllocentricPanner.handle; tied to the code by the capture-based correspondence on every run",
         "the theorems are over the reals: nan_to_num is the identity there; nothing is claimed about NaN/inf or "
-        "rounding at the 1e-10 / 1e-16 thresholds",
-        "the interiors of the sub-panners (point-source panner regions, extent weight functions, allo_extent's "
-        "g_total before the last safe_norm, zone/channel-lock/screen position transforms) are parameters: "
-        "arbitrary vectors satisfying the stated contracts",
+        "rounding at the 1e-10 / 1e-16 thresholds; for diffuse outside [0,1] (not rejected by the ADM element classes, "
+        "outside the property's quantifier) numpy returns NaN where the real sqrt of a negative number is 0 — the "
+        "headline theorems carry 0 <= diffuse <= 1",
+        "the interiors of the spreading panner (extent weight functions), of allo_extent's per-axis weights and np.roots "
+        "(closed form assumed) are parameters; the point-source panner is C05's model walked over its regenerated table",
     )
     assumptions = (
-        "H1 every per-position gain vector is non-negative with unit power (on 0+2+0: power in [1/2,1]) — searched",
+        "H1 every per-position gain vector is non-negative with unit power (on 0+2+0: power in [1/2,1]) — proved for "
+        "Cartesian point objects (allocentric panner) and for polar point objects in the point-only regime on the nominal "
+        "tables (C05 totality imported from Props/C05.lean); searched for extent and for real-position layouts",
         "H2 the zone downmix matrix is non-negative with rows summing to one — proved for the model of "
-        "downmix_for_excluded whenever it returns a matrix (duplicate-free groups), otherwise searched",
+        "downmix_for_excluded on the ten regenerated group tables, every mask",
         "0 <= diffuse <= 1, 0 <= divergence value <= 1, gains >= 0 (ADM value ranges)",
-        "searched only: the point-source panner never returns 'no result'; the spread weights are not all zero; "
-        "allo_extent's vector is longer than 1e-16; finiteness and non-negativity under float arithmetic",
+        "searched only: the spread weights are not all zero; allo_extent's vector is longer than 1e-16; the point-source "
+        "panner on real (non-nominal) positions; "
+        "finiteness and non-negativity under float arithmetic",
     )
     rule = (
         "Objects metadata blocks (polar/Cartesian position, extent, divergence, zones, channelLock, screenRef with "
@@ -590,7 +677,11 @@ class C01(Spec):
         "ten) and on 1-degree steps, Cartesian positions on multiples of 0.25 / 0.1, each with a fixed set of extents "
         "(0/5/20/90/180/270/360, wide-flat and tall shapes, depth 0/0.5), plus sequences of 2-6 blocks on ONE shared "
         "GainCalc instance (alternating polar/Cartesian, extent/lock/divergence on and off, one zone list recurring), each "
-        "block compared by exact equality with the same block on a fresh instance; a case is one (block, layout); non-trivial = non-zero output power; distinct by the case dict"
+        "block compared by exact equality with the same block on a fresh instance, plus deterministic (seed-independent) "
+        "sequence families on all ten layouts: ONE sized block (polar/Cartesian, with and without depth, divergence, zones, "
+        "lock) repeated 2-4 times with identical panning parameters while only block gain (0.5, 0.5, 1.0), object gain (0.7 "
+        "twice), mute -> un-mute or diffuse vary, also with a point block in between, each compared with a fresh instance AND "
+        "with the power law; a case is one (block, layout); non-trivial = non-zero output power; distinct by the case dict"
     )
 
     # ---- tables
@@ -693,21 +784,37 @@ class C01(Spec):
             if not res["lines"]:
                 continue
             outs = driver.run(res["lines"])
-            for line, ans, (case, direct, diffuse) in zip(res["lines"], outs, res["expect"]):
+            for line, ans, (case, out, in_class) in zip(res["lines"], outs, res["expect"]):
                 kind = "cartesian point" if case["cartesian"] else "polar point"
+                name = "Cart" if case["cartesian"] else "PolarPoint"
                 feats = "+".join(f for f in G.features(case)[1:] if f in ("div", "zones", "lock", "screenRef", "edgeLock", "offset")) or "plain"
-                if ans == "none" and not case["cartesian"]:
-                    # outside the modelled class (distance < 1 after a lock to a near loudspeaker cannot happen; this
-                    # is a diverged / transformed position closer than 1): counted, not compared
-                    ctx.count("concrete polar point: outside the modelled class (spread branch active)")
+                ctx.case(("concrete", line), True)
+                if out[0] == "raised":
+                    # GainCalc.render raised ValueError (by design: positionOffset leaves the value range): the model's `none`
+                    ctx.count("concrete %s: render raises ValueError, model must answer none" % kind)
+                    if ans == "none":
+                        ctx.validated()
+                    else:
+                        ctx.disagree("GainCalc.render raises but Earverif.GainCalc.renderConcrete%s returns gains" % name,
+                                     case, ans, out[1])
                     continue
+                if not in_class:
+                    # decided with the real extent_mod (polar_point_class): a diverged / locked / offset position closer than
+                    # distance 1, where calc_pv_spread also calls the spreading panner — the model must refuse
+                    ctx.count("concrete polar point: outside the modelled class (spread branch active), model must answer none")
+                    if ans == "none":
+                        ctx.validated()
+                    else:
+                        ctx.disagree("Earverif.GainCalc.renderConcretePolarPoint answers outside its class", case, ans, "none")
+                    continue
+                _st, direct, diffuse = out
                 m = parse_pair(ans)
                 ctx.count("concrete %s:%s" % (kind, res["layout"]))
                 ctx.count("concrete features %s:%s" % (kind, feats))
-                ctx.case(("concrete", line), True)
                 if m is None or not close_vec(m[0], direct, 1e-9) or not close_vec(m[1], diffuse, 1e-9):
-                    ctx.disagree("GainCalc.render vs Earverif.GainCalc.renderConcrete%s (nothing captured)"
-                                 % ("Cart" if case["cartesian"] else "PolarPoint"), case,
+                    # a model `none` INSIDE the class (Cartesian: every zero-extent block; polar: every visited position in
+                    # the point-only regime) is a disagreement like any other
+                    ctx.disagree("GainCalc.render vs Earverif.GainCalc.renderConcrete%s (nothing captured)" % name, case,
                                  ans if m is None else {"direct": f17(m[0]), "diffuse": f17(m[1])},
                                  {"direct": f17(direct), "diffuse": f17(diffuse)})
                 else:
@@ -798,6 +905,15 @@ class C01(Spec):
             r = gcmod.direct_diffuse_split(np.array(gains), x)
             items.append(("split %s ; %s" % (enc(x), encs(gains)), (list(r.direct), list(r.diffuse)),
                           {"gains": gains, "diffuse": x}))
+        # outside the quantifier (the ADM element classes accept it, numpy answers NaN): the Float model must do the same;
+        # this is why render_nonneg / render_lfe_zero / render_muted_zero carry 0 <= diffuse <= 1
+        for x in (1.5, -0.25):
+            with np.errstate(all="ignore"):
+                r = gcmod.direct_diffuse_split(np.array([0.0, 1.0, 0.5]), x)
+            items.append(("split %s ; %s" % (enc(x), encs([0.0, 1.0, 0.5])), (list(r.direct), list(r.diffuse)),
+                          {"gains": [0.0, 1.0, 0.5], "diffuse": x}))
+            ctx.count("direct_diffuse_split outside [0,1]: NaN in the output:%s"
+                      % bool(np.isnan(r.direct).any() or np.isnan(r.diffuse).any()))
         self._cmp(ctx, driver, "direct_diffuse_split", items)
         items = []
         for mute in (False, True):
@@ -969,6 +1085,64 @@ class C01(Spec):
         finally:
             del pep.calc_pv_spread
         self._cmp(ctx, driver, "PolarExtentHandler.handle distance/depth logic", items, tol=1e-9)
+        # the whole of PolarExtentHandler.handle through the model's `polarHandle` (extent_mod, ammount_spread, the clamping
+        # of width/height to fade_width/2, calc_pv_spread, depth RMS — nothing recomposed here): only the two panners'
+        # answers are recorded, the spreading panner's keyed by the (clamped) width/height it was asked for
+        items = []
+        for name in (["4+5+0", "0+2+0"] if quick else ["0+5+0", "4+5+0", "9+10+3", "0+2+0", "3+7+0"]):
+            gc, _lay = G.gain_calc(name)
+            peh = gc.polar_extent_panner
+            pep = peh.polar_extent_panner
+            sp = pep.spreading_panner
+            n = int(np.sum(~gc.is_lfe))
+            rec = {"p": None, "wh": None, "tab": []}
+            orig_pf, orig_gw, orig_pv = pep.panning_func, pep.get_weight_func, sp.panning_values_for_weight
+
+            def pf(position, _o=orig_pf, _r=rec):
+                r = _o(position)
+                _r["p"] = np.array(r, dtype=float)
+                return r
+
+            def gw(position, width, height, _o=orig_gw, _r=rec):
+                _r["wh"] = (float(width), float(height))
+                return _o(position, width, height)
+
+            def pvw(weight_f, _o=orig_pv, _r=rec):
+                r = _o(weight_f)
+                _r["tab"].append((_r["wh"][0], _r["wh"][1], np.array(r, dtype=float)))
+                return r
+
+            pep.panning_func, pep.get_weight_func, sp.panning_values_for_weight = pf, gw, pvw
+            try:
+                for _ in range(25 if quick else 150):
+                    dist = rng.choice([1.0, 1.0, 0.5, 0.0, 0.999999, 0.2, rng.random()])
+                    w = rng.choice([0.0, 0.0, 1e-9, 3.0, 5.0, 9.999999, 10.0, 45.0, 360.0, rng.uniform(0, 360)])
+                    h = rng.choice([0.0, 0.0, 2.0, 5.0, 10.0, 90.0, rng.uniform(0, 360)])
+                    depth = rng.choice([0.0, 0.0, 0.0, 1.0, 0.5, 0.1, 2 * dist, 3 * dist])
+                    k3 = rng.random()
+                    if k3 < 0.2:      # point-only regime: no extent, distance 1 (ammount_spread = 0)
+                        dist, w, h, depth = 1.0, 0.0, 0.0, 0.0
+                    elif k3 < 0.4:    # both branches of calc_pv_spread: a small extent (< fade_width) at distance 1
+                        dist, w, h = 1.0, rng.choice([1.0, 3.0, 7.5, 9.9]), rng.choice([0.0, 2.0, 6.0])
+                    position = _cart(rng.uniform(-180, 180), rng.uniform(-90, 90), dist)
+                    rec["p"], rec["wh"] = None, None
+                    del rec["tab"][:]
+                    with np.errstate(all="ignore"):
+                        r = peh.handle(position, w, h, depth)
+                    pvec = rec["p"] if rec["p"] is not None else np.zeros(n)
+                    tab = " , ".join("%s %s %s" % (enc(a), enc(b), encs(g)) for a, b, g in rec["tab"]) or "none"
+                    items.append(("phandlefull %d %s %s %s %s ; %s ; %s" % (n, encs(position), enc(w), enc(h), enc(depth),
+                                                                           encs(pvec), tab),
+                                  list(map(float, r)),
+                                  {"layout": name, "position": list(position), "width": w, "height": h, "depth": depth}))
+                    ctx.count("polarHandle regime:%s" % ("point only" if not rec["tab"] else
+                                                         "spread only" if rec["p"] is None else "point+spread"))
+                    ctx.count("polarHandle end distances:%d" % (1 if depth == 0 else 2))
+            finally:
+                pep.panning_func = orig_pf
+                del pep.get_weight_func
+                del sp.panning_values_for_weight
+        self._cmp(ctx, driver, "PolarExtentHandler.handle whole (polarHandle with recorded panner answers)", items, tol=1e-9)
         # allo_extent.get_gains: the last safe_norm
         items = []
         proxy = NpProxy()
@@ -1076,6 +1250,8 @@ class C01(Spec):
             sjobs = [(name, (ctx.seed, ctx.tier, c), 15) for name in G.LAYOUTS for c in range(2)]
         else:
             sjobs = [(name, (ctx.seed, ctx.tier, c), 40) for name in G.LAYOUTS for c in range(8)]
+        # deterministic sequence families on every layout (same on every seed): two parts per layout
+        sjobs += [(name, ("fixed", part), 0, (part, 2)) for name in G.LAYOUTS for part in range(2)]
         if nproc <= 1:
             for j in sjobs:
                 self._absorb(ctx, work_seq(j), None, "search")
@@ -1089,52 +1265,61 @@ SPEC = C01()
 
 REGISTRY = dict(
     text="PARTIAL: Lean theorems over the reals (Earverif.GainCalc.render_power, render_power_stereo, render_nonneg, "
-    "render_lfe_zero, render_muted_zero, collected in C01_partial) prove that GainCalc.render, from the point where "
-    "the sub-panners have answered, yields non-negative gains, exact zeros on LFE slots and summed direct+diffuse "
-    "power (block gain x object gain)^2 (0 when muted; within [1/2,1] of it on 0+2+0) whenever each per-position "
-    "gain vector is non-negative with unit power (H1), the zone downmix has non-negative rows summing to one (H2) "
-    "and diffuse, divergence lie in [0,1]. Discharged in Lean: H2 for the model of downmix_for_excluded "
-    "(downmix_rows_sum_one, downmix_nonneg); the divergence gains (diverge_gains_sum_one/_nonneg); split_power; H1 "
-    "for the whole allocentric point-source panner on every well-formed grid and position (allo_unit_power; "
-    "render_power_allocentric = Cartesian point objects with no panner hypothesis left); the polar extent skeleton "
-    "(pvSpread_power, depthCombine_unit, normalise_unit; render_power_polar_extent) and allo_extent's final "
-    "safe_norm (safeNorm_unit) given a non-zero pre-normalisation vector. Round 2: per-layout tables (zone priority "
-    "groups, allocentric speaker tree with exact rational coordinates, is_lfe) are regenerated from the real objects "
-    "on every run (Gen/C01_Tables.lean) and checked by decide +kernel (tables_ok, tables_nonempty), which instantiates "
-    "inside Lean, for the ten BS.2051 layouts: downmix_layouts (H2 and totality of downmix_for_excluded for every "
-    "exclusion mask), allo_total_layouts (the allocentric panner never raises and has unit power at every position), "
-    "render_power_allocentric_layouts / renderFull_allocentric_layouts (Cartesian point objects without zone "
-    "exclusion: full invariant, no panner hypothesis), render_power_polar_layouts. The position pipeline is inside "
-    "the model (renderFull: positionOffset, coord_trans, screen scale, edge lock, channel lock, diverge positions, "
-    "extent pan; the three handlers and the panner are arbitrary functions): renderFull_power, renderFull_polar, "
-    "divergePositions_length (the one-vector-per-diverged-position shape is proved), diverge_cart_in_cube; the polar "
-    "handler's distance/depth logic with extent_mod (polarHandle_isPolarRow, amountSpread_range, extentMod_range); the "
-    "allo_extent.get_gains skeleton after the per-axis weights (alloExtent_nonneg, alloExtent_unit, "
-    "alloExtent_unit_of_size: unit power for unit point gains and a non-zero size vector). Round 5: the handlers and "
-    "panners are plugged in by import of the other checks' models (renderConcreteCart / renderConcretePolarPoint in "
-    "Model/GainCalcConcrete.lean: C13 zone masks, channel lock, scaleAzEl, compensate_position, _speaker_tree; C19 "
-    "Cartesian<->polar conversion; C05 point-source panner over its regenerated table with closed-form quad roots; own "
-    "transliterations of PolarEdges.from_screen and the screen-scale / edge-lock glue). renderConcrete_cart_power(_layouts): "
-    "Cartesian point objects end to end on the ten layouts with NO handler or panner hypothesis (every zone list, lock, "
-    "screenRef, edge lock, offset, divergence: non-negative, LFE zero, power = (gain x object gain)^2 whenever render does "
-    "not raise; uses C13's speakerTree_spec and treeWF_of_TreeS). renderConcrete_polar_point_partial(_layouts): polar "
-    "point objects (zero extent, distance >= 1) on the nine non-stereo layouts; remaining hypotheses: the C05 panner "
-    "returns a result (C05 totality is not proved) that is not the all-zero vector; non-negativity and unit norm of its "
-    "answer are discharged through panner_inherits, the per-region theorems and downmix_nonneg_unit (pspHandle_contract). "
-    "Whole-render correspondence of both WITHOUT captured intermediates (inputs: metadata + layout name; 1e-9). Still "
-    "parameters: the extent weight functions of the polar extent panner (spreading panner values, get_weight_func), "
-    "_calc_f/_calc_w/_calc_g_point_separated of allo_extent, np.roots (closed form assumed). The model is tied to the code on every "
-    "run by capturing diverge / extent panner / zone downmix results inside the real GainCalc.render and replaying "
-    "them through the Lean model (1e-12 absolute), by replaying the whole pipeline with the recorded handler calls as "
-    "oracles (renderFull; a recorded call that is not where the model's pipeline puts it is a disagreement), plus "
-    "direct sub-model comparisons (diverge positions, extent_mod, handle distance logic, get_gains skeleton, ...). NOT proved, only searched on "
-    "the real code (generated blocks x ten layouts; thorough: symmetric real-position layouts): that the egocentric "
-    "point-source panner never returns no result and has unit power ([1/2,1] on 0+2+0), that spread weights are not "
-    "all zero, that allo_extent's vector exceeds 1e-16, and finiteness/non-negativity under float arithmetic.",
+    "render_lfe_zero, render_muted_zero — all with 0 <= diffuse <= 1 —, collected in C01_partial) prove that "
+    "GainCalc.render, from the point where the sub-panners have answered, yields non-negative gains, exact zeros on LFE "
+    "slots and summed direct+diffuse power (block gain x object gain)^2 (0 when muted; within [1/2,1] of it on 0+2+0) "
+    "whenever each per-position gain vector is non-negative with unit power (H1), the zone downmix has non-negative rows "
+    "summing to one (H2) and diffuse, divergence lie in [0,1]. Discharged in Lean: H2 for the model of "
+    "downmix_for_excluded on the ten regenerated group tables, every mask (downmix_layouts); the divergence gains; "
+    "split_power; H1 for the whole allocentric point-source panner on every well-formed grid and position "
+    "(allo_unit_power); the polar extent skeleton (pvSpread_power, depthCombine_unit, normalise_unit) and allo_extent's "
+    "final safe_norm given a non-zero pre-normalisation vector; per-layout tables (zone priority groups, allocentric "
+    "speaker tree with exact rational coordinates, is_lfe, nominal/allocentric/normalised positions, screen) are "
+    "regenerated from the real objects on every run and checked by decide +kernel. The position pipeline is inside the "
+    "model (renderFull: positionOffset, coord_trans, screen scale, edge lock, channel lock, diverge positions, extent "
+    "pan); the panner contracts of renderFull_power / renderFull_polar / polarHandle_contract are required ONLY at the "
+    "positions the block visits (visitedPositions) and, for the spreading panner, only for clamped extents in [5,360] "
+    "(a panner that misbehaves at the origin satisfies them: example in Props/C01.lean). renderConcreteCart / "
+    "renderConcretePolarPoint plug in the other checks' models (C13 zone masks, channel lock, scaleAzEl, "
+    "compensate_position, _speaker_tree; C19 conversion; C05 point-source panner over its regenerated table with "
+    "closed-form quad roots). renderConcrete_cart_power(_layouts): Cartesian point objects end to end on the ten layouts "
+    "with NO handler or panner hypothesis; renderConcreteCart_plain_total_layouts: such a block without offset/screenRef/"
+    "edge lock/zones/lock is always rendered (so the theorem's hypothesis is satisfiable on every table: example). "
+    "renderConcrete_polar_point_layouts: polar point objects (zero extent, locked position in the point-only class, which "
+    "contains every distance >= 1: inPointClass_of_far) on the nine non-stereo layouts with NO hypothesis about the panner: "
+    "whenever the position pipeline, the channel lock and the zone mask do not fail (where the Python raises), "
+    "renderConcretePolarPoint on the regenerated tables RETURNS gains and they satisfy the invariant (power up to the "
+    "1e-10 threshold slack of calc_pv_spread) for every zone list, lock, screenRef, edge lock, offset and divergence. "
+    "Ingredients: C05 totality on the nominal tables (Earverif.PointSource.pspHandle_total_layouts, imported), "
+    "pspHandle_hasPos (the panner's answer is never the zero vector at a visited position: every Triplet and VirtualNgon "
+    "fan triangle of the regenerated C05 table is invertible with bounded coordinates, table obligation pspNzOk decided by "
+    "the kernel; polarPoint_far: the point-only regime forces distance > 1/2, where the absolute 1e-11 acceptance "
+    "threshold cannot hide a direction), diverge_polar_norm (polar divergence keeps the distance, so the class is decided "
+    "by the locked position). renderConcrete_polar_point_partial keeps the statement for ARBITRARY tables passing the "
+    "decidable checks (there C05 totality stays inside the hypothesis 'renderConcretePolarPoint returns'). 0+2+0: "
+    "renderConcrete_polar_point_stereo_bounds_layouts (same, power in [(1-1e-10)/2, 1] x (gain x object gain)^2 on the "
+    "concrete stereo table, via C05's stereo_level; _partial form for arbitrary tables) and "
+    "renderConcrete_cart_stereo_bounds. Pipeline glue facts: applyOffset_*, coordTrans_cart_in_cube, norm3_cart, "
+    "polarExtents_length/_range, lockToScreenEdge_*, edgeLockHandle_no*, screenScaleHandle_no*, polarEdges_front "
+    "(a polar screen straight ahead has edges), divergePositions_polar/_none, diverge_polar_norm (polar divergence keeps the distance). Correspondence on every run: captured "
+    "intermediates replayed through render and renderFull (1e-12); whole render WITHOUT captured intermediates through "
+    "renderConcreteCart/PolarPoint (1e-9) where class membership of a polar block (every visited position in the "
+    "point-only regime) is decided by the harness with the real extent_mod — a model 'none' inside the class, a model "
+    "answer outside it, or a model answer where the real render raises ValueError is a disagreement; the whole of "
+    "PolarExtentHandler.handle through the model's polarHandle with only the two panners' answers recorded (point-only, "
+    "point+spread, spread-only, one and two end distances); direct sub-model comparisons (diverge, extent_mod, split, "
+    "downmix_for_excluded for all masks, AllocentricPanner.handle, get_gains skeleton, ...). NOT proved, only searched on "
+    "the real code (generated blocks x ten layouts; thorough: symmetric real-position layouts; sequences on one shared "
+    "instance incl. deterministic repeated-sized-block families with varying gain/mute): unit power with extent (spread weights not all zero, allo_extent's vector longer than 1e-16), the "
+    "values of polarEdges/screen scaling/edge lock with an active screen, "
+    "and finiteness/non-negativity under float arithmetic.",
     note="Trusted: Lean kernel + Mathlib, hand transliteration of render and the sub-models + capture-based "
-    "correspondence harness; reals instead of floats (nan_to_num is the identity over the reals). The full "
-    "statement (all ObjectTypeMetadata x all layouts) is described in Props/C01.lean as C01_full and left unproved.",
-    technique="Lean 4 proof over a scalar-polymorphic model (run over Float, proved over the reals) + capture-based "
-    "differential correspondence with GainCalc.render + direct-predicate search",
+    "correspondence harness; reals instead of floats (nan_to_num is the identity over the reals; for diffuse outside "
+    "[0,1] — accepted by the ADM element classes, outside the quantifier — the code returns NaN, the theorems carry the "
+    "range hypothesis). The full statement (all ObjectTypeMetadata x all layouts) is described in Props/C01.lean as "
+    "C01_full and left unproved.",
+    technique="Lean 4 proof over a scalar-polymorphic model (run over Float, proved over the reals) + kernel-decided table "
+    "obligations on regenerated tables + capture-based and capture-free differential correspondence with GainCalc.render + "
+    "direct-predicate search incl. state-dependence sequences",
     design_ref="DESIGN.md section 4, C01",
 )
